@@ -170,13 +170,15 @@ def to_provider(spec, cls, cfg):
 class Program:
     """one (spec, configs) program compiled in all modes"""
 
-    def __init__(self, spec, configs):
+    def __init__(self, spec, configs, first_providers=None):
         self.spec, self.configs = spec, configs
         self.cls = models.build(spec)
         self.loaders, self.dumpers = {}, {}
         self.load_creation_error, self.dump_creation_error = None, None
         try:
             recipe = [to_provider(spec, self.cls, c) for c in configs]
+            if first_providers is not None:
+                recipe = [*first_providers(self.cls), *recipe]
         except Exception as e:  # noqa: BLE001
             self.load_creation_error = self.dump_creation_error = e
             self.recipe_error = e
